@@ -30,7 +30,8 @@ RULE = ("valid and faulted texts of the C01 family (40% with values moved "
         "from the including file; plus unbalanced cuts of accepted texts "
         "(must be rejected).  Non-trivial = at least one cut; "
         "distinct_nontrivial = distinct (corpus, number of cuts, nesting, "
-        "placements, outcome) signatures.")
+        "placements, outcome) signatures."
+        " Reference styles include definitions holding the whole (absolute) reference or leading segments followed by '..'; some fragment names contain '$'; a third of the generated definitions stand inside sections.")
 LEVEL_TEXT = ("Each (inlined, cut) pair is loaded by the real loader on both "
               "sides; value trees or the fact of rejection must agree, so "
               "sharing of the define table, section context, relative URL "
